@@ -31,6 +31,9 @@ func main() {
 	verbose := flag.Bool("v", false, "verbose")
 	smtlog := flag.String("smtlog", "", "write solver input to file")
 	tags := flag.String("tags", "verif", "build tags")
+	thorough := flag.Bool("thorough", false, "thorough tier (zzverif.Thorough() is true)")
+	samples := flag.Int("samples", 0, "number of validation samples (models of completed paths)")
+	seed := flag.Int64("seed", 0, "seed (only affects which paths are sampled)")
 	flag.Parse()
 
 	overlay := map[string][]byte{}
@@ -84,7 +87,7 @@ func main() {
 			fatal(err)
 		}
 		c := Config{MaxDecisions: *maxDec, MaxDepth: *maxDepth, MaxSteps: *maxSteps, MaxPaths: *maxPaths, MapPerm: *mapPerm,
-			MaxWitness: 3, Verbose: *verbose, TimeBudget: *budget}
+			MaxWitness: 3, Verbose: *verbose, TimeBudget: *budget, Thorough: *thorough, Samples: *samples, Seed: *seed}
 		if *initPkgs != "" {
 			c.InitPkgs = strings.Split(*initPkgs, ",")
 		}
